@@ -1,6 +1,7 @@
 import ZV.Base
 /-!
-  Model of `verifier/graph.go`: `Graph`, `AddCert`, `AddRoot`.
+  Model of `verifier/graph.go`: `Graph`, `AddCert`, `AddRoot`, the observers `Nodes`/`Edges`/`FindEdge`/
+  `FindNode`/`IsRoot`, and the loop of `AppendFromPEMErr` / `AppendFromPEM` (end of file).
 
   Abstractions
   * a certificate is a record of small identifiers: `fp` stands for its SHA-256
@@ -212,5 +213,72 @@ def run (V : Ver) : Graph → List Op → Res Graph
     match step V g op with
     | .ok g1 => run V g1 ops
     | _ => .panic
+
+/-! ### the public observers (`Nodes`, `Edges`, `FindEdge`, `FindNode`, `IsRoot`) -/
+
+/-- `len(g.Nodes())`: a copy of `g.nodes` -/
+def nodesLen (g : Graph) : Nat := g.nodes.length
+/-- `len(g.Edges())`: the values of the top-level edge set -/
+def edgesLen (g : Graph) : Nat := g.edges.length
+/-- `g.FindEdge(c.FingerprintSHA256) != nil` -/
+def findEdgeOk (g : Graph) (c : Cert) : Bool := (findEdge g.edges c.fp).isSome
+/-- `g.FindNode(c.SPKISubjectFingerprint) != nil` -/
+def findNodeOk (g : Graph) (c : Cert) : Bool := (findNode g.nodes c.sk).isSome
+/-- `(*Graph).IsRoot`: `edge := g.FindEdge(fp); if edge == nil { return false }; return edge.root` -/
+def isRoot (g : Graph) (c : Cert) : Bool :=
+  match findEdge g.edges c.fp with
+  | none => false
+  | some e => e.root
+
+/-! ### `AppendFromPEMErr` / `AppendFromPEM`
+
+  The byte stream is abstracted to the sequence of things the scanner loop meets:
+  * `junk` — bytes in which `pem.Decode` finds no block (free text, a block with a broken armour or
+    broken base64): `zcertificate.ScannerSplitPEM` glues them to the next token and `pem.Decode`
+    skips them again in the loop body, nothing is counted;
+  * `bad`  — a well-formed PEM block whose payload `x509.ParseCertificate` rejects: one parsing error;
+  * `cert c` — a well-formed PEM block (of ANY type label: the label is not looked at) whose payload
+    parses to `c`;
+  * `big`  — 64 KiB or more without a complete PEM block: `bufio.Scanner` gives up with
+    `ErrTooLong`, the loop ends, everything after it is ignored and the third result is non-nil. -/
+inductive PemItem where
+  | junk
+  | bad
+  | cert (c : Cert)
+  | big
+  deriving Repr, DecidableEq
+
+structure PemOut where
+  count : Nat        -- first result: certificates parsed
+  nerr : Nat         -- `len(parsingErrs)`
+  readErr : Bool     -- `scanner.Err() != nil`
+  g : Graph
+  deriving Repr, DecidableEq
+
+/-- the `for scanner.Scan()` loop of `AppendFromPEMErr` -/
+def pemLoop (V : Ver) (root : Bool) : Graph → Nat → Nat → List PemItem → Res PemOut
+  | g, n, ne, [] => .ok ⟨n, ne, false, g⟩
+  | g, n, ne, .junk :: rest => pemLoop V root g n ne rest
+  | g, n, ne, .bad :: rest => pemLoop V root g n (ne + 1) rest
+  | g, n, ne, .big :: _ => .ok ⟨n, ne, true, g⟩
+  | g, n, ne, .cert c :: rest =>
+    match addCert V g c with
+    | .ok g1 =>
+      if root then
+        match addRoot V g1 c with
+        | .ok g2 => pemLoop V root g2 (n + 1) ne rest
+        | _ => .panic
+      else pemLoop V root g1 (n + 1) ne rest
+    | _ => .panic
+
+/-- `(*Graph).AppendFromPEMErr` -/
+def appendFromPEMErr (V : Ver) (g : Graph) (items : List PemItem) (root : Bool) : Res PemOut :=
+  pemLoop V root g 0 0 items
+
+/-- `(*Graph).AppendFromPEM`: `n, _, _ := g.AppendFromPEMErr(r, root); return n` -/
+def appendFromPEM (V : Ver) (g : Graph) (items : List PemItem) (root : Bool) : Res (Nat × Graph) :=
+  match appendFromPEMErr V g items root with
+  | .ok o => .ok (o.count, o.g)
+  | _ => .panic
 
 end ZV.C10
